@@ -200,7 +200,8 @@ func buildTable() *Node {
 			leaflist("ll-d3", "decimal64", frac(3)), leaflist("ll-str", "string"), leaflist("ll-bool", "boolean"),
 			leaflist("ll-enu", "enumeration", enu), leaflist("ll-idr", "identityref"), leaflist("ll-uni", "union", uni),
 		),
-		cont("state", state(), leaf("counter", "uint64", state()), leaf("oper", "string", state())),
+		cont("state", state(), leaf("counter", "uint64", state()), leaf("oper", "string", state()), leaf("oper-reason", "string", state()),
+			list("nbr", "id", leaf("id", "string", state()), leaf("v", "string", state()))),
 	)
 	var fix func(n *Node, inheritedState bool)
 	fix = func(n *Node, st bool) {
